@@ -300,6 +300,7 @@ Section Main.
       destruct (dry_ok (do_for_type_and_all (strop_by_pattern u cfg) s3 tyl true)) eqn:E1; [|discriminate].
       destruct (dry_ok (do_for_type_and_all (strop_by_keyword cfg) s3 tyl true)) eqn:E2; [|discriminate].
       destruct (dry_ok (do_for_type_and_all (encode u sp cfg) s3 tyl true)) eqn:E3; [|discriminate].
+      destruct (negb (sc_full_check cfg) || full_ok u cfg tyl s3) eqn:E4; [|discriminate].
       cbn [andb] in C4. injection C4 as <-.
       split; [exact Hvalid|split].
       + apply (dry_kw tyl). intros E; rewrite E in E2; discriminate.
